@@ -28,8 +28,15 @@ theorem not_true_to_false {b : Bool} (h : ¬ b = true) : b = false := by
 
 /-! ## index_access_in_bounds -/
 
-/-- F_INDEX: every access of `c[n]` lies inside the allocation of the container (strings: the NUL counts; buffers:
-    the tail padding of `buffer_t` counts), for every size and every int64 operand. -/
+/-- one-access outcome: used by the index theorems -/
+theorem one_access_in_bounds (k : Kind) (size off : Int) (rw : Rw) (hlo : 0 ≤ off) (hhi : off + 1 ≤ allocOf k size) :
+    ∀ a ∈ [(⟨.owner, off, 1, rw⟩ : Access)], a.inBounds k size 0 := by
+  intro a ha
+  simp at ha; subst ha
+  simp [Access.inBounds]; omega
+
+/-- F_INDEX: every access of `c[n]` lies inside the allocation of the container (strings: the NUL counts), for every
+    size and every int64 operand. -/
 theorem index_access_in_bounds (k : Kind) (size n : Int) (out : Out) (hk : SizeOk k size)
     (h : opIndex k size n = .ok out) : ∀ a ∈ out.acc, a.inBounds k size 0 := by
   obtain ⟨h0, hk⟩ := hk
@@ -43,30 +50,24 @@ theorem index_access_in_bounds (k : Kind) (size n : Int) (out : Out) (hk : SizeO
       · cases h
       · rename_i g1 g2
         cases h
-        intro a ha
-        simp [rd] at ha; subst ha
         have := g_index_arr _ _ h0 hk (not_true_to_false g1) (not_true_to_false g2)
-        simp [Access.inBounds, allocOf]; omega
+        exact one_access_in_bounds _ _ _ _ this.1 (by simp [allocOf]; omega)
   | str =>
     simp only at h hk
     split at h
     · cases h
     · rename_i g1
       cases h
-      intro a ha
-      simp [rd] at ha; subst ha
-      have := g_index_str _ _ h0 (not_true_to_false g1)
-      simp [Access.inBounds, allocOf]; omega
+      have := g_index_str _ _ h0 hk (not_true_to_false g1)
+      exact one_access_in_bounds _ _ _ _ this.1 (by simp [allocOf]; omega)
   | buf =>
     simp only at h hk
     split at h
     · cases h
     · rename_i g1
       cases h
-      intro a ha
-      simp [rd] at ha; subst ha
-      have := g_index_buf _ _ h0 (not_true_to_false g1)
-      simp [Access.inBounds, allocOf, bufTailPad]; omega
+      have := g_index_buf _ _ h0 hk (not_true_to_false g1)
+      exact one_access_in_bounds _ _ _ _ this.1 (by simp [allocOf, bufTailPad]; omega)
 
 /-- F_RINDEX -/
 theorem rindex_access_in_bounds (k : Kind) (size n : Int) (out : Out) (hk : SizeOk k size)
@@ -82,30 +83,36 @@ theorem rindex_access_in_bounds (k : Kind) (size n : Int) (out : Out) (hk : Size
       · cases h
       · rename_i g1 g2
         cases h
-        intro a ha
-        simp [rd] at ha; subst ha
-        have := g_rindex_arr _ _ h0 hk (not_true_to_false g2)
-        simp [Access.inBounds, allocOf]; omega
+        have := g_rindex_arr _ _ h0 hk (not_true_to_false g1)
+        exact one_access_in_bounds _ _ _ _ this.1 (by simp [allocOf]; omega)
   | str =>
     simp only at h hk
     split at h
     · cases h
     · rename_i g1
       cases h
-      intro a ha
-      simp [rd] at ha; subst ha
-      have := g_rindex_str _ _ h0 (not_true_to_false g1)
-      simp [Access.inBounds, allocOf]; omega
+      have := g_rindex_str _ _ h0 hk (not_true_to_false g1)
+      exact one_access_in_bounds _ _ _ _ this.1 (by simp [allocOf]; omega)
   | buf =>
     simp only at h hk
     split at h
     · cases h
     · rename_i g1
       cases h
-      intro a ha
-      simp [rd] at ha; subst ha
-      have := g_rindex_buf _ _ h0 (not_true_to_false g1)
-      simp [Access.inBounds, allocOf, bufTailPad]; omega
+      have := g_rindex_buf _ _ h0 hk (not_true_to_false g1)
+      exact one_access_in_bounds _ _ _ _ this.1 (by simp [allocOf, bufTailPad]; omega)
+
+/-- after its guard F_RINDEX on arrays never overflows `int` (the former undefined behaviour is gone) -/
+theorem rindex_arr_no_ub (size n : Int) (hk : SizeOk .arr size) (s : String) : opRindex .arr size n ≠ .error (.ub s) := by
+  obtain ⟨h0, hk⟩ := hk
+  simp only at hk
+  unfold opRindex
+  simp only
+  split
+  · simp
+  · rename_i g1
+    have := g_rindex_arr _ _ h0 hk (not_true_to_false g1)
+    simp [this.2.2]
 
 theorem lindexCore_in_bounds (k : Kind) (onStack : Bool) (size ind v : Int) (out : Out) (hk : SizeOk k size)
     (h : lindexCore k onStack size ind v = .ok out) :
@@ -170,12 +177,12 @@ theorem lindex_access_in_bounds (k : Kind) (rev onStack : Bool) (size n v : Int)
          · cases h
          · exact lindexCore_in_bounds _ _ _ _ _ _ hk h)
 
-/-- the *logical* bound `off < size` for rvalue indexing of arrays (F_INDEX and F_RINDEX) -/
-theorem index_logical_bound_arr (size n : Int) (out : Out) (hk : SizeOk .arr size) :
-    (opIndex .arr size n = .ok out ∨ opRindex .arr size n = .ok out) → ∀ a ∈ out.acc, 0 ≤ a.off ∧ a.off < size := by
+/-- the *logical* bound `off < size` for rvalue indexing (F_INDEX and F_RINDEX) of arrays and - since the buffer
+    guards were repaired (`>=`) - of buffers -/
+theorem index_logical_bound (k : Kind) (hkk : k = .arr ∨ k = .buf) (size n : Int) (out : Out) (hk : SizeOk k size) :
+    (opIndex k size n = .ok out ∨ opRindex k size n = .ok out) → ∀ a ∈ out.acc, 0 ≤ a.off ∧ a.off < size := by
   obtain ⟨h0, hk⟩ := hk
-  simp only at hk
-  rintro (h | h)
+  rcases hkk with rfl | rfl <;> simp only at hk <;> rintro (h | h)
   · unfold opIndex at h
     simp only at h
     split at h
@@ -197,12 +204,40 @@ theorem index_logical_bound_arr (size n : Int) (out : Out) (hk : SizeOk .arr siz
         cases h
         intro a ha
         simp [rd] at ha; subst ha
-        exact g_rindex_arr _ _ h0 hk (not_true_to_false g2)
+        have := g_rindex_arr _ _ h0 hk (not_true_to_false g1)
+        exact ⟨this.1, this.2.1⟩
+  · unfold opIndex at h
+    simp only at h
+    split at h
+    · cases h
+    · rename_i g1
+      cases h
+      intro a ha
+      simp [rd] at ha; subst ha
+      exact g_index_buf _ _ h0 hk (not_true_to_false g1)
+  · unfold opRindex at h
+    simp only at h
+    split at h
+    · cases h
+    · rename_i g1
+      cases h
+      intro a ha
+      simp [rd] at ha; subst ha
+      exact g_rindex_buf _ _ h0 hk (not_true_to_false g1)
+
+theorem index_logical_bound_arr (size n : Int) (out : Out) (hk : SizeOk .arr size) :
+    (opIndex .arr size n = .ok out ∨ opRindex .arr size n = .ok out) → ∀ a ∈ out.acc, 0 ≤ a.off ∧ a.off < size :=
+  index_logical_bound .arr (Or.inl rfl) size n out hk
+
+theorem index_logical_bound_buf (size n : Int) (out : Out) (hk : SizeOk .buf size) :
+    (opIndex .buf size n = .ok out ∨ opRindex .buf size n = .ok out) → ∀ a ∈ out.acc, 0 ≤ a.off ∧ a.off < size :=
+  index_logical_bound .buf (Or.inr rfl) size n out hk
 
 /-- strings: the rvalue index may equal the length (the terminating NUL is read, `s[strlen(s)] == 0`) -/
 theorem index_logical_bound_str (size n : Int) (out : Out) (hk : SizeOk .str size) :
     (opIndex .str size n = .ok out ∨ opRindex .str size n = .ok out) → ∀ a ∈ out.acc, 0 ≤ a.off ∧ a.off ≤ size := by
   obtain ⟨h0, hk⟩ := hk
+  simp only at hk
   rintro (h | h)
   · unfold opIndex at h
     simp only at h
@@ -212,7 +247,7 @@ theorem index_logical_bound_str (size n : Int) (out : Out) (hk : SizeOk .str siz
       cases h
       intro a ha
       simp [rd] at ha; subst ha
-      exact g_index_str _ _ h0 (not_true_to_false g1)
+      exact g_index_str _ _ h0 hk (not_true_to_false g1)
   · unfold opRindex at h
     simp only at h
     split at h
@@ -221,6 +256,6 @@ theorem index_logical_bound_str (size n : Int) (out : Out) (hk : SizeOk .str siz
       cases h
       intro a ha
       simp [rd] at ha; subst ha
-      exact g_rindex_str _ _ h0 (not_true_to_false g1)
+      exact g_rindex_str _ _ h0 hk (not_true_to_false g1)
 
 end NV.C01
